@@ -194,6 +194,20 @@ def run_dropwater(spec, res):
                 choice[k] = ("ATOM" if rng.random() < 0.4 else it["rec"],
                              ("WAT" if it["resn"] == "HOH" else "HOH") if rng.random() < 0.3 else it["resn"])
             it["rec"], it["resn"] = choice[k]
+    if spec["seed"] % 3 == 0:
+        # legacy numbering: the waters sit at the end of the file in the protein's chain and their numbering
+        # restarts at the protein's first residue number (a water and a residue share chain + number, not adjacent)
+        prot = [it for it in m["items"] if isinstance(it, dict) and it["resn"] not in ("HOH", "WAT")]
+        if prot:
+            chain, first = prot[0]["chain"], prot[0]["resi"]
+            remap = {}
+            for it in m["items"]:
+                if isinstance(it, dict) and it["resn"] in ("HOH", "WAT"):
+                    k = (it["chain"], it["resi"], it["icode"])
+                    if k not in remap:
+                        remap[k] = first + len(remap)
+                    it["chain"], it["resi"], it["icode"] = chain, remap[k], ""
+            res.count("dropwater_colliding_numbering")
     m["text"] = pdbfmt.to_text(m["items"])
     stripped = [it for it in m["items"] if not (isinstance(it, dict) and it["resn"] in ("HOH", "WAT"))]
     nw = len(m["items"]) - len(stripped)
